@@ -52,6 +52,7 @@ type stmt struct {
 	Body   []stmt
 	Stages []stage
 	Fs     [][]stmt
+	Fn     bool // form only: rendered as a function definition and a call with the redirections
 }
 
 func fileRedir(dst int, mode int, p int) redir {
@@ -104,6 +105,9 @@ func (s stmt) text() string {
 	case "range":
 		return fmt.Sprintf("range %d", s.N)
 	case "form":
+		if s.Fn {
+			return "fn vf { " + bodyText(s.Body) + " }; vf" + rsText(s.Rs)
+		}
 		return "{ " + bodyText(s.Body) + " }" + rsText(s.Rs)
 	case "pipe":
 		var parts []string
@@ -286,6 +290,8 @@ func (g gctx) genStmt() stmt {
 			}
 		case leaf:
 			return stmt{Kind: "nop"}
+		case x < 11:
+			return g.genAliasNest()
 		case x < 13:
 			rs, out := g.genRedirs(false)
 			sub.out = out
@@ -319,6 +325,60 @@ func (g gctx) genStmt() stmt {
 			return stmt{Kind: "try", Body: sub.genBody(3)}
 		}
 	}
+}
+
+// ---------------------------------------------------------------- aliased ports x file redirections
+
+// outer redirection lists that make several fds share one port
+func aliasOuters() [][]redir {
+	return [][]redir{
+		{dupRedir(2, 1)}, {dupRedir(3, 1)}, {dupRedir(4, 1)}, {dupRedir(5, 1)},
+		{dupRedir(3, 2)}, {dupRedir(5, 2)}, {dupRedir(2, 1), dupRedir(3, 1)},
+		{dupRedir(3, 0)}, {dupRedir(4, 2), dupRedir(5, 4)}, {dupRedir(1, 2)},
+	}
+}
+
+// inner forms with one file redirection of every kind
+func aliasInners() []stmt {
+	e := stmt{Kind: "echo", S: "in"}
+	n := stmt{Kind: "nop"}
+	return []stmt{
+		{Kind: "form", Rs: []redir{fileRedir(-1, 1, 1)}, Body: []stmt{e}},
+		{Kind: "form", Rs: []redir{fileRedir(-1, 2, 1)}, Body: []stmt{e}},
+		{Kind: "form", Rs: []redir{fileRedir(-1, 3, 2)}, Body: []stmt{e}},
+		{Kind: "form", Rs: []redir{fileRedir(-1, 0, 0)}, Body: []stmt{n}},
+		{Kind: "form", Rs: []redir{fileRedir(2, 1, 2)}, Body: []stmt{e}},
+		{Kind: "form", Rs: []redir{fileRedir(2, 2, 1)}, Body: []stmt{n}},
+		{Kind: "form", Rs: []redir{fileRedir(3, 1, 1)}, Body: []stmt{e}},
+		{Kind: "form", Rs: []redir{fileRedir(4, 2, 2), fileRedir(-1, 1, 1)}, Body: []stmt{e}},
+	}
+}
+
+// a random nest: outer dups, inner file redirections, sometimes a failure
+func (g gctx) genAliasNest() stmt {
+	r := g.c.Rand
+	outs, ins := aliasOuters(), aliasInners()
+	var body []stmt
+	k := 1 + r.Intn(3)
+	for i := 0; i < k; i++ {
+		in := ins[r.Intn(len(ins))]
+		if g.out == "pipe" {
+			// port 1 may be a pipeline pipe here: no writer except at the end of the stage
+			in.Body = []stmt{{Kind: "nop"}}
+		}
+		if r.Intn(5) == 0 {
+			in.Body = append(append([]stmt(nil), in.Body...), stmt{Kind: "fail"})
+		}
+		if r.Intn(4) == 0 {
+			in.Fn = true
+		}
+		body = append(body, in)
+	}
+	nest := stmt{Kind: "form", Rs: outs[r.Intn(len(outs))], Body: body, Fn: r.Intn(4) == 0}
+	if r.Intn(3) == 0 {
+		nest = stmt{Kind: "form", Rs: outs[r.Intn(len(outs))], Body: []stmt{nest}}
+	}
+	return nest
 }
 
 func (g gctx) genPipe() stmt {
@@ -359,10 +419,55 @@ func genProg(c *reg.Ctx) []stmt {
 	g := gctx{c: c, out: "sink", in0: "dummy"}
 	n := 1 + c.Rand.Intn(3)
 	var b []stmt
+	if c.Rand.Intn(3) == 0 {
+		b = append(b, g.genAliasNest())
+	}
 	for i := 0; i < n; i++ {
 		b = append(b, g.genStmt())
 	}
 	return b
+}
+
+// plantedAlias: the family "file redirection inside a form whose ports alias each
+// other through outer n>&m" -- emitted first in every run, whatever the seed.
+type prg struct {
+	body  []stmt
+	alias bool // run with ports 1 and 2 being one port object
+}
+
+func plantedAlias() []prg {
+	var ps []prg
+	ins := aliasInners()
+	fail := stmt{Kind: "fail"}
+	withFn := func(b []stmt) []stmt {
+		var o []stmt
+		for _, s := range b {
+			s.Fn = true
+			o = append(o, s)
+		}
+		return o
+	}
+	for _, out := range aliasOuters() {
+		// { in1; in2; ... } outer
+		ps = append(ps, prg{body: []stmt{{Kind: "form", Rs: out, Body: ins}}})
+		// fn vf { fn vf {..}; vf >f; ... }; vf outer
+		ps = append(ps, prg{body: []stmt{{Kind: "form", Rs: out, Body: withFn(ins), Fn: true}}})
+		// two alias depths
+		ps = append(ps, prg{body: []stmt{{Kind: "form", Rs: []redir{dupRedir(2, 1)},
+			Body: []stmt{{Kind: "form", Rs: out, Body: []stmt{{Kind: "form", Body: ins}}}}}}})
+		// the command inside throws / a later inner form throws
+		bad := append([]stmt(nil), ins[:3]...)
+		last := ins[0]
+		last.Body = []stmt{{Kind: "echo", S: "x"}, fail}
+		bad = append(bad, last)
+		ps = append(ps, prg{body: []stmt{{Kind: "try", Body: []stmt{{Kind: "form", Rs: out, Body: bad}}}}})
+		ps = append(ps, prg{body: []stmt{{Kind: "form", Rs: out, Body: []stmt{last}}}})
+	}
+	// no outer dup at all: the evaluation's own ports 1 and 2 are one object
+	ps = append(ps, prg{body: ins, alias: true})
+	ps = append(ps, prg{body: withFn(ins), alias: true})
+	ps = append(ps, prg{body: []stmt{{Kind: "form", Rs: []redir{dupRedir(3, 2)}, Body: ins}}, alias: true})
+	return ps
 }
 
 // ---------------------------------------------------------------- planted programs
@@ -446,17 +551,24 @@ func run(c *reg.Ctx) {
 	if c.Tier == "thorough" {
 		reps = 200
 	}
-	var progs [][]stmt
-	progs = append(progs, planted()...)
+	var progs []prg
+	progs = append(progs, plantedAlias()...)
+	for _, b := range planted() {
+		progs = append(progs, prg{body: b})
+	}
 	for i := 0; i < c.N; i++ {
-		progs = append(progs, genProg(c))
+		progs = append(progs, prg{body: genProg(c), alias: c.Rand.Intn(8) == 0})
 	}
 	d := &driver{dir: dir}
 	defer d.stop()
 	fsCoq := List([]string{Some(Str("seed\nline2\n")), None(), Some(Str("old\n")), None()})
-	for _, p := range progs {
+	for _, pg := range progs {
+		p := pg.body
 		src := strings.ReplaceAll(bodyText(p), "%D", dir)
 		shown := bodyText(p)
+		if pg.alias {
+			shown = "[ports 1,2 aliased] " + shown
+		}
 		feat := map[string]bool{}
 		features(p, feat)
 		class := "plain"
@@ -473,7 +585,7 @@ func run(c *reg.Ctx) {
 			class = "redirection"
 		}
 		c.Count(class)
-		res, died, hang := d.do(job{Src: src, Reps: reps})
+		res, died, hang := d.do(job{Src: src, Reps: reps, Alias: pg.alias})
 		switch {
 		case hang:
 			c.Emit(reg.Case{Direct: "evaluation did not finish within the deadline: " + shown,
@@ -499,7 +611,7 @@ func run(c *reg.Ctx) {
 			continue
 		}
 		c.Emit(reg.Case{
-			Coq: App("mkCase", fsCoq, bodyCoq(p), Nat(reps), out, Z(int64(res.FdGrow)), Z(int64(res.GorGrow))),
+			Coq: App("mkCase", fsCoq, bodyCoq(p), Nat(reps), Bool(pg.alias), out, Z(int64(res.FdGrow)), Z(int64(res.GorGrow))),
 			Desc: dsc, Key: shown,
 			Nontrivial: feat["redir"] || feat["pipe"] || feat["capture"] || feat["peach"] || feat["runpar"] || feat["eachin"],
 			Class:      class,
